@@ -1,3 +1,3 @@
 Require Import ExtrOcamlBasic.
 Require Import AV.Mini.Tool.
-Extraction "Mini/extracted/mini.ml" tool_gen tool_shrink tool_raw tool_corpus_names tool_corpus tool_mutants tool_forms.
+Extraction "Mini/extracted/mini.ml" tool_gen tool_shrink tool_raw tool_corpus_names tool_corpus tool_mutants tool_forms tool_forms_failed_at.
